@@ -1,5 +1,1139 @@
-//! (stub; being written)
+//! C17 — image extraction and re-import is lossless; image-source precedence and matching.
+//!
+//! Technique: bounded exhaustive enumeration.  Every case hand-assembles ANM binaries (own writer),
+//! drives the REAL `truanm` CLI in a subprocess (decompile / extract / compile -i ...), and reads the
+//! produced ANM with an independent reader (own parser following the header offsets) to compare the
+//! THTX sections byte for byte with the expectation computed by the harness alone.
+//!
+//! Families:
+//!  (a) pixel  — every pixel value of RGB565 / ARGB4444 / GRAY8 and channel sweeps + boundary values of
+//!               ARGB8888:  extract -> compile -i dir -> same THTX bytes.
+//!  (b) dims   — texture sizes x image offsets x formats (single-entry files, multi-entry batch files,
+//!               all container versions):  extract -> compile -i dir.
+//!  (c) prec   — every sequence of <= 3 image sources (ANM file | directory, each supplying a non-empty
+//!               subset of two paths), delivered via -i and/or #pragma image_source: last supplier wins.
+//!  (d) dup    — 2-3 script entries sharing a path x 1-3 same-path entries in the source ANM (+ an
+//!               interleaved other-path entry, + a directory before/after): matched in order.
+//!  (e) verb   — `-i original.anm` copies the THTX verbatim (all formats incl. unknown numbers, odd sizes,
+//!               offsets, explicit or inferred metadata, permuted entry order).
 #![allow(dead_code)]
-use crate::common::Report;
-pub fn run(tier: &str) -> Report { Report::new("C17", tier, "model_checking") }
-pub fn replay(_detail: &serde_json::Value) -> i32 { 2 }
+
+use std::collections::{BTreeMap, BTreeSet};
+use std::path::PathBuf;
+use std::sync::atomic::{AtomicU64, Ordering};
+use std::time::{Duration, Instant};
+
+use serde_json::{json, Value};
+
+use crate::common::{par_map, Report};
+use crate::drive::{cleanup_scratch, run_cli, scratch_dir};
+
+// =============================================================================================
+// formats, games
+
+const F_ARGB8888: u16 = 1;
+const F_RGB565: u16 = 3;
+const F_ARGB4444: u16 = 5;
+const F_GRAY8: u16 = 7;
+const KNOWN_FORMATS: [u16; 4] = [F_ARGB8888, F_RGB565, F_ARGB4444, F_GRAY8];
+
+fn bpp(fmt: u16) -> Option<usize> {
+    match fmt { F_ARGB8888 => Some(4), F_RGB565 | F_ARGB4444 => Some(2), F_GRAY8 => Some(1), _ => None }
+}
+/// bytes per pixel used by the harness when *generating* data (unknown formats: 1 byte per pixel)
+fn gen_bpp(fmt: u16) -> usize { bpp(fmt).unwrap_or(1) }
+
+fn fmt_name(fmt: u16) -> String {
+    match fmt {
+        F_ARGB8888 => "ARGB8888".into(), F_RGB565 => "RGB565".into(),
+        F_ARGB4444 => "ARGB4444".into(), F_GRAY8 => "GRAY8".into(),
+        n => format!("FMT{n}"),
+    }
+}
+fn fmt_const(fmt: u16) -> String {
+    match fmt {
+        F_ARGB8888 => "FORMAT_ARGB_8888".into(), F_RGB565 => "FORMAT_RGB_565".into(),
+        F_ARGB4444 => "FORMAT_ARGB_4444".into(), F_GRAY8 => "FORMAT_GRAY_8".into(),
+        n => format!("{n}"),
+    }
+}
+
+#[derive(Clone, Copy, Debug)]
+struct GameV { name: &'static str, version: u32, old: bool }
+const GAMES: [GameV; 6] = [
+    GameV { name: "th06", version: 0, old: true },
+    GameV { name: "th07", version: 2, old: true },
+    GameV { name: "th08", version: 3, old: true },
+    GameV { name: "th10", version: 4, old: true },
+    GameV { name: "th12", version: 7, old: false },
+    GameV { name: "th17", version: 8, old: false },
+];
+fn game(name: &str) -> GameV { *GAMES.iter().find(|g| g.name == name).unwrap_or(&GAMES[4]) }
+
+// =============================================================================================
+// own ANM writer / reader (independent of truth)
+
+#[derive(Clone, Debug)]
+struct AEntry { path: String, fmt: u16, w: u16, h: u16, ox: u16, oy: u16, rt_w: u16, rt_h: u16, data: Vec<u8> }
+
+fn np2(x: u16) -> u16 { (x.max(1) as u32).next_power_of_two().min(0x8000) as u16 }
+
+impl AEntry {
+    fn new(path: &str, fmt: u16, w: u16, h: u16, ox: u16, oy: u16, data: Vec<u8>) -> AEntry {
+        AEntry { path: path.into(), fmt, w, h, ox, oy, rt_w: np2(w), rt_h: np2(h), data }
+    }
+}
+
+fn put16(v: &mut Vec<u8>, x: u16) { v.extend_from_slice(&x.to_le_bytes()); }
+fn put32(v: &mut Vec<u8>, x: u32) { v.extend_from_slice(&x.to_le_bytes()); }
+
+fn write_anm(entries: &[AEntry], g: GameV) -> Vec<u8> {
+    let mut out = vec![];
+    for (i, e) in entries.iter().enumerate() {
+        let last = i + 1 == entries.len();
+        let mut path = e.path.as_bytes().to_vec();
+        let plen = (path.len() + 1 + 15) / 16 * 16;
+        path.resize(plen, 0);
+        let thtx_off = 64 + plen as u32;
+        let total = thtx_off + 16 + e.data.len() as u32;
+        let next = if last { 0 } else { total };
+        let mprio: u32 = if g.version == 0 { 0 } else { 10 };
+        let mut h = vec![];
+        if g.old {
+            put32(&mut h, 0); put32(&mut h, 0); put32(&mut h, 0);
+            put32(&mut h, e.rt_w as u32); put32(&mut h, e.rt_h as u32); put32(&mut h, e.fmt as u32);
+            put32(&mut h, 0);            // colorkey
+            put32(&mut h, 64);           // name offset
+            put32(&mut h, 0);            // unused
+            put32(&mut h, 0);            // secondary name offset
+            put32(&mut h, g.version);
+            put32(&mut h, mprio);
+            put32(&mut h, thtx_off);
+            put16(&mut h, 1); put16(&mut h, 0);
+            put32(&mut h, next);
+            put32(&mut h, 0);
+        } else {
+            put32(&mut h, g.version);
+            put16(&mut h, 0); put16(&mut h, 0); put16(&mut h, 0);
+            put16(&mut h, e.rt_w); put16(&mut h, e.rt_h); put16(&mut h, e.fmt);
+            put32(&mut h, 64);
+            put16(&mut h, e.ox); put16(&mut h, e.oy);
+            put32(&mut h, mprio);
+            put32(&mut h, thtx_off);
+            put16(&mut h, 1); put16(&mut h, 0);
+            put32(&mut h, next);
+            h.resize(64, 0);
+        }
+        assert_eq!(h.len(), 64);
+        out.extend_from_slice(&h);
+        out.extend_from_slice(&path);
+        out.extend_from_slice(b"THTX");
+        put16(&mut out, 0); put16(&mut out, e.fmt); put16(&mut out, e.w); put16(&mut out, e.h);
+        put32(&mut out, e.data.len() as u32);
+        out.extend_from_slice(&e.data);
+    }
+    out
+}
+
+#[derive(Clone, Debug)]
+struct RThtx { fmt: u16, w: u16, h: u16, data: Vec<u8> }
+#[derive(Clone, Debug)]
+struct REntry { path: String, ox: u32, oy: u32, rt_w: u32, rt_h: u32, rt_fmt: u32, has_data: u32, thtx: Option<RThtx> }
+
+fn g16(b: &[u8], o: usize) -> Result<u16, String> {
+    b.get(o..o + 2).map(|s| u16::from_le_bytes([s[0], s[1]])).ok_or_else(|| format!("truncated at {o:#x}"))
+}
+fn g32(b: &[u8], o: usize) -> Result<u32, String> {
+    b.get(o..o + 4).map(|s| u32::from_le_bytes([s[0], s[1], s[2], s[3]])).ok_or_else(|| format!("truncated at {o:#x}"))
+}
+
+fn read_anm(b: &[u8], old: bool) -> Result<Vec<REntry>, String> {
+    let mut out = vec![];
+    let mut pos = 0usize;
+    loop {
+        if out.len() > 100_000 { return Err("entry loop".into()); }
+        let (rt_w, rt_h, rt_fmt, name_off, ox, oy, thtx_off, has_data, next);
+        if old {
+            rt_w = g32(b, pos + 12)?; rt_h = g32(b, pos + 16)?; rt_fmt = g32(b, pos + 20)?;
+            name_off = g32(b, pos + 28)?; ox = 0; oy = 0;
+            thtx_off = g32(b, pos + 48)?; has_data = g16(b, pos + 52)? as u32; next = g32(b, pos + 56)?;
+        } else {
+            rt_w = g16(b, pos + 10)? as u32; rt_h = g16(b, pos + 12)? as u32; rt_fmt = g16(b, pos + 14)? as u32;
+            name_off = g32(b, pos + 16)?; ox = g16(b, pos + 20)? as u32; oy = g16(b, pos + 22)? as u32;
+            thtx_off = g32(b, pos + 28)?; has_data = g16(b, pos + 32)? as u32; next = g32(b, pos + 36)?;
+        }
+        let ps = pos + name_off as usize;
+        let tail = b.get(ps..).ok_or("bad name offset")?;
+        let n = tail.iter().position(|&c| c == 0).ok_or("unterminated path")?;
+        let path = String::from_utf8_lossy(&tail[..n]).to_string();
+        let thtx = if thtx_off != 0 {
+            let t = pos + thtx_off as usize;
+            if b.get(t..t + 4) != Some(b"THTX") { return Err(format!("no THTX magic at {t:#x}")); }
+            let fmt = g16(b, t + 6)?; let w = g16(b, t + 8)?; let h = g16(b, t + 10)?;
+            let size = g32(b, t + 12)? as usize;
+            let data = b.get(t + 16..t + 16 + size).ok_or("THTX data truncated")?.to_vec();
+            Some(RThtx { fmt, w, h, data })
+        } else { None };
+        out.push(REntry { path, ox, oy, rt_w, rt_h, rt_fmt, has_data, thtx });
+        if next == 0 { break; }
+        pos += next as usize;
+    }
+    Ok(out)
+}
+
+// =============================================================================================
+// own PNG writer (RGBA8, stored deflate blocks) + the reference expansion of each format to RGBA
+
+fn crc32(data: &[u8]) -> u32 {
+    static TABLE: std::sync::OnceLock<[u32; 256]> = std::sync::OnceLock::new();
+    let t = TABLE.get_or_init(|| {
+        let mut t = [0u32; 256];
+        for i in 0..256u32 {
+            let mut c = i;
+            for _ in 0..8 { c = if c & 1 != 0 { 0xEDB88320 ^ (c >> 1) } else { c >> 1 }; }
+            t[i as usize] = c;
+        }
+        t
+    });
+    let mut c = 0xFFFF_FFFFu32;
+    for &b in data { c = t[((c ^ b as u32) & 0xFF) as usize] ^ (c >> 8); }
+    c ^ 0xFFFF_FFFF
+}
+
+fn png_chunk(out: &mut Vec<u8>, kind: &[u8; 4], body: &[u8]) {
+    out.extend_from_slice(&(body.len() as u32).to_be_bytes());
+    let mut c = kind.to_vec();
+    c.extend_from_slice(body);
+    out.extend_from_slice(&c);
+    out.extend_from_slice(&crc32(&c).to_be_bytes());
+}
+
+fn write_png_rgba(w: u32, h: u32, rgba: &[u8]) -> Vec<u8> {
+    assert_eq!(rgba.len(), (w * h * 4) as usize);
+    let mut raw = vec![];
+    for y in 0..h as usize {
+        raw.push(0);
+        raw.extend_from_slice(&rgba[y * w as usize * 4..(y + 1) * w as usize * 4]);
+    }
+    let mut z = vec![0x78, 0x01];
+    let mut chunks = raw.chunks(65535).peekable();
+    if raw.is_empty() { z.extend_from_slice(&[1, 0, 0, 0xFF, 0xFF]); }
+    while let Some(c) = chunks.next() {
+        z.push(if chunks.peek().is_none() { 1 } else { 0 });
+        z.extend_from_slice(&(c.len() as u16).to_le_bytes());
+        z.extend_from_slice(&(!(c.len() as u16)).to_le_bytes());
+        z.extend_from_slice(c);
+    }
+    let (mut a, mut b2) = (1u32, 0u32);
+    for &x in &raw { a = (a + x as u32) % 65521; b2 = (b2 + a) % 65521; }
+    z.extend_from_slice(&((b2 << 16) | a).to_be_bytes());
+    let mut out = vec![0x89, b'P', b'N', b'G', 0x0D, 0x0A, 0x1A, 0x0A];
+    let mut ihdr = vec![];
+    ihdr.extend_from_slice(&w.to_be_bytes());
+    ihdr.extend_from_slice(&h.to_be_bytes());
+    ihdr.extend_from_slice(&[8, 6, 0, 0, 0]);
+    png_chunk(&mut out, b"IHDR", &ihdr);
+    png_chunk(&mut out, b"IDAT", &z);
+    png_chunk(&mut out, b"IEND", &[]);
+    out
+}
+
+/// Reference expansion texture bytes -> RGBA8 (bit replication for the narrow channels).  Used only to
+/// author directory-source PNGs whose colours are exactly representable in the target format.
+fn ref_to_rgba(fmt: u16, data: &[u8]) -> Vec<u8> {
+    let mut out = vec![];
+    match fmt {
+        F_ARGB8888 => for p in data.chunks(4) { out.extend_from_slice(&[p[2], p[1], p[0], p[3]]); },
+        F_RGB565 => for p in data.chunks(2) {
+            let v = u16::from_le_bytes([p[0], p[1]]);
+            let (r, g, b) = ((v >> 11) as u8, ((v >> 5) & 0x3F) as u8, (v & 0x1F) as u8);
+            out.extend_from_slice(&[(r << 3) | (r >> 2), (g << 2) | (g >> 4), (b << 3) | (b >> 2), 0xFF]);
+        },
+        F_ARGB4444 => for p in data.chunks(2) {
+            let v = u16::from_le_bytes([p[0], p[1]]);
+            let n = |s: u16| (((v >> s) & 0xF) as u8) * 17;
+            out.extend_from_slice(&[n(8), n(4), n(0), n(12)]);
+        },
+        F_GRAY8 => for &v in data { out.extend_from_slice(&[v, v, v, 0xFF]); },
+        _ => panic!("ref_to_rgba: unknown format"),
+    }
+    out
+}
+
+/// A 16-bit pixel is "non-trivial" when its 8-bit expansion by bit replication differs from the naive
+/// zero-filling shift in at least one channel (so a wrong shift/rounding on the way back is visible).
+fn nontrivial16(fmt: u16, v: u16) -> bool {
+    match fmt {
+        F_RGB565 => (v >> 11) >> 2 != 0 || ((v >> 5) & 0x3F) >> 4 != 0 || (v & 0x1F) >> 2 != 0,
+        F_ARGB4444 => v != 0,
+        _ => false,
+    }
+}
+
+// =============================================================================================
+// deterministic fills
+
+fn pattern(fmt: u16, w: u16, h: u16, seed: u32) -> Vec<u8> {
+    let n = w as usize * h as usize;
+    let mut out = Vec::with_capacity(n * gen_bpp(fmt));
+    match gen_bpp(fmt) {
+        1 => for y in 0..h as u32 { for x in 0..w as u32 {
+            out.push((x.wrapping_mul(7).wrapping_add(y.wrapping_mul(13)).wrapping_add(seed.wrapping_mul(29)).wrapping_add(3) & 0xFF) as u8);
+        } },
+        2 => for i in 0..n as u32 {
+            let v = (i.wrapping_mul(40503).wrapping_add(seed.wrapping_mul(977)).wrapping_add(0x1F3) & 0xFFFF) as u16;
+            out.extend_from_slice(&v.to_le_bytes());
+        },
+        _ => for i in 0..n as u32 {
+            let v = (i + 1).wrapping_add(seed.wrapping_mul(1_000_003)).wrapping_mul(0x9E37_79B1);
+            out.extend_from_slice(&v.to_le_bytes());
+        },
+    }
+    out
+}
+
+fn pixel_set(fmt: u16, set: &str, perm: u32) -> (u16, u16, Vec<u8>) {
+    match set {
+        "all16" => {
+            let mut d = Vec::with_capacity(131072);
+            for i in 0..65536u32 {
+                let v = if perm == 0 { i } else { (i * 40503 + 12345) & 0xFFFF } as u16;
+                d.extend_from_slice(&v.to_le_bytes());
+            }
+            (256, 256, d)
+        },
+        "all8" => {
+            let d = (0..256u32).map(|i| if perm == 0 { i as u8 } else { ((i * 77 + 31) & 0xFF) as u8 }).collect();
+            (16, 16, d)
+        },
+        "sweep32" => {
+            // each channel (byte position in B,G,R,A) through 0..=255 with the others at {00,5A,FF}^3
+            let lv = [0x00u8, 0x5A, 0xFF];
+            let mut d = vec![];
+            for c in 0..4usize { for combo in 0..27usize { for v in 0..256u32 {
+                let mut px = [0u8; 4];
+                let mut k = combo;
+                for j in 0..4 { if j == c { px[j] = v as u8; } else { px[j] = lv[k % 3]; k /= 3; } }
+                d.extend_from_slice(&px);
+            } } }
+            (256, 108, d)
+        },
+        "bound32" => {
+            let vals = [0u8, 1, 0x7F, 0x80, 0xFE, 0xFF];
+            let mut d = vec![];
+            for a in vals { for r in vals { for g in vals { for b in vals { d.extend_from_slice(&[b, g, r, a]); } } } }
+            (36, 36, d)
+        },
+        _ => panic!("unknown pixel set {set}"),
+    }
+}
+
+// =============================================================================================
+// cases
+
+#[derive(Clone, Debug)]
+enum Case {
+    /// (a)
+    Pixel { fmt: u16, set: String, perm: u32, corrupt: bool },
+    /// (b) one ANM with one entry per item [w,h,ox,oy]
+    Dims { game: String, fmt: u16, items: Vec<[u16; 4]>, sub: String, corrupt: bool },
+    /// (e) single entry
+    Verb { game: String, fmt: u16, w: u16, h: u16, ox: u16, oy: u16, rt: String, script: String, corrupt: bool },
+    /// (e) four entries (one per known format); script entries in "same" or "reversed" order
+    VerbMulti { order: String, script: String, corrupt: bool },
+    /// (c) sources: (kind 'A'|'D', mask of supplied paths 1..=3); the first n_pragma are delivered by pragma
+    Prec { fmt: u16, sources: Vec<(char, u8)>, n_pragma: usize, corrupt: bool },
+    /// (d) dest / src layouts over {P,Q}; dir_mode none|after|before
+    Dup { fmt: u16, dest: String, src: String, dir_mode: String, corrupt: bool },
+}
+
+impl Case {
+    fn family(&self) -> &'static str {
+        match self {
+            Case::Pixel { .. } => "a:pixel", Case::Dims { .. } => "b:dims",
+            Case::Verb { .. } | Case::VerbMulti { .. } => "e:verbatim",
+            Case::Prec { .. } => "c:precedence", Case::Dup { .. } => "d:duplicates",
+        }
+    }
+    fn to_json(&self) -> Value {
+        match self {
+            Case::Pixel { fmt, set, perm, corrupt } => json!({"family": "pixel", "fmt": fmt, "set": set, "perm": perm, "corrupt": corrupt}),
+            Case::Dims { game, fmt, items, sub, corrupt } => json!({"family": "dims", "game": game, "fmt": fmt, "sub": sub,
+                "items": items.iter().map(|i| json!([i[0], i[1], i[2], i[3]])).collect::<Vec<_>>(), "corrupt": corrupt}),
+            Case::Verb { game, fmt, w, h, ox, oy, rt, script, corrupt } => json!({"family": "verb", "game": game, "fmt": fmt,
+                "w": w, "h": h, "ox": ox, "oy": oy, "rt": rt, "script": script, "corrupt": corrupt}),
+            Case::VerbMulti { order, script, corrupt } => json!({"family": "verbmulti", "order": order, "script": script, "corrupt": corrupt}),
+            Case::Prec { fmt, sources, n_pragma, corrupt } => json!({"family": "prec", "fmt": fmt, "n_pragma": n_pragma,
+                "sources": sources.iter().map(|(k, m)| json!([k.to_string(), m])).collect::<Vec<_>>(), "corrupt": corrupt}),
+            Case::Dup { fmt, dest, src, dir_mode, corrupt } => json!({"family": "dup", "fmt": fmt, "dest": dest, "src": src, "dir_mode": dir_mode, "corrupt": corrupt}),
+        }
+    }
+    fn from_json(v: &Value) -> Option<Case> {
+        let u = |k: &str| v[k].as_u64().map(|x| x as u16);
+        let s = |k: &str| v[k].as_str().map(|x| x.to_string());
+        let corrupt = v["corrupt"].as_bool().unwrap_or(false);
+        Some(match v["family"].as_str()? {
+            "pixel" => Case::Pixel { fmt: u("fmt")?, set: s("set")?, perm: v["perm"].as_u64()? as u32, corrupt },
+            "dims" => Case::Dims { game: s("game")?, fmt: u("fmt")?, sub: s("sub").unwrap_or_default(), corrupt,
+                items: v["items"].as_array()?.iter().map(|i| {
+                    let a = i.as_array()?; Some([a.get(0)?.as_u64()? as u16, a.get(1)?.as_u64()? as u16, a.get(2)?.as_u64()? as u16, a.get(3)?.as_u64()? as u16])
+                }).collect::<Option<Vec<_>>>()? },
+            "verb" => Case::Verb { game: s("game")?, fmt: u("fmt")?, w: u("w")?, h: u("h")?, ox: u("ox")?, oy: u("oy")?, rt: s("rt")?, script: s("script")?, corrupt },
+            "verbmulti" => Case::VerbMulti { order: s("order")?, script: s("script")?, corrupt },
+            "prec" => Case::Prec { fmt: u("fmt")?, n_pragma: v["n_pragma"].as_u64()? as usize, corrupt,
+                sources: v["sources"].as_array()?.iter().map(|i| {
+                    let a = i.as_array()?; Some((a.get(0)?.as_str()?.chars().next()?, a.get(1)?.as_u64()? as u8))
+                }).collect::<Option<Vec<_>>>()? },
+            "dup" => Case::Dup { fmt: u("fmt")?, dest: s("dest")?, src: s("src")?, dir_mode: s("dir_mode")?, corrupt },
+            _ => return None,
+        })
+    }
+}
+
+#[derive(Default)]
+struct CaseOut {
+    calls: u64,
+    comparisons: u64,
+    configs: u64,
+    fails: Vec<(String, Value)>,
+    outcomes: Vec<(String, u64)>,
+    discards: Vec<String>,
+    /// keys of the distinct non-trivial units covered by this case
+    nontrivial_keys: Vec<String>,
+    nontrivial_pixels: u64,
+    wall_ms: u64,
+}
+
+// ---------------------------------------------------------------------------------------------
+// scratch work area + CLI
+
+static NEXT_DIR: AtomicU64 = AtomicU64::new(0);
+
+struct Work { dir: PathBuf, calls: u64, keep: bool }
+impl Work {
+    fn new() -> Work {
+        let n = NEXT_DIR.fetch_add(1, Ordering::Relaxed);
+        let dir = scratch_dir().join(format!("c17-{n}"));
+        let _ = std::fs::remove_dir_all(&dir);
+        std::fs::create_dir_all(&dir).expect("create scratch subdir");
+        Work { dir, calls: 0, keep: std::env::var("VERIF_C17_KEEP").is_ok() }
+    }
+    fn p(&self, name: &str) -> String { self.dir.join(name).to_string_lossy().to_string() }
+    fn write(&self, name: &str, data: &[u8]) {
+        let p = self.dir.join(name);
+        if let Some(parent) = p.parent() { std::fs::create_dir_all(parent).expect("mkdir"); }
+        std::fs::write(&p, data).expect("write scratch file");
+    }
+    fn cli(&mut self, args: &[&str]) -> crate::drive::CliOut {
+        self.calls += 1;
+        let a: Vec<String> = args.iter().map(|s| s.to_string()).collect();
+        // (the harness binary can be replaced by a concurrent build; a failed spawn is a machinery error,
+        //  not a property violation)
+        match crate::common::catch(|| run_cli(&a, &[])) {
+            Ok(o) => o,
+            Err(p) => crate::drive::CliOut { status: -999, stdout: vec![], stderr: format!("machinery: {}", p.text).into_bytes() },
+        }
+    }
+}
+impl Drop for Work {
+    fn drop(&mut self) { if !self.keep { let _ = std::fs::remove_dir_all(&self.dir); } }
+}
+
+fn clip(b: &[u8]) -> String {
+    let s = String::from_utf8_lossy(b);
+    let s: String = s.lines().filter(|l| !l.trim().is_empty()).take(12).collect::<Vec<_>>().join("\n");
+    s.chars().take(1500).collect()
+}
+
+struct StageErr { kind: String, stderr: String }
+
+fn stage(work: &mut Work, name: &str, args: &[&str]) -> Result<Vec<u8>, StageErr> {
+    let o = work.cli(args);
+    if o.status != 0 {
+        let se = clip(&o.stderr);
+        let kind = if o.status == -999 { "machinery:spawn-failed".to_string() }
+            else if se.contains("panicked at") { format!("{name}-panicked") } else { format!("{name}-failed") };
+        return Err(StageErr { kind, stderr: se });
+    }
+    Ok(o.stdout)
+}
+
+// ---------------------------------------------------------------------------------------------
+// expectation and comparison
+
+#[derive(Clone, Debug)]
+struct Expect {
+    path: String,
+    /// None: the entry must have no THTX section
+    tex: Option<(u16, u16, u16, Vec<u8>)>,
+    label: String,
+}
+
+#[derive(Debug)]
+struct Mis { idx: usize, kind: String, info: Value }
+
+fn px_value(fmt: u16, data: &[u8], i: usize) -> String {
+    let b = gen_bpp(fmt);
+    let s = data.get(i * b..(i + 1) * b).unwrap_or(&[]);
+    let mut v: u64 = 0;
+    for (k, &x) in s.iter().enumerate() { v |= (x as u64) << (8 * k); }
+    format!("0x{:0width$X}", v, width = b * 2)
+}
+
+fn compare(expects: &[Expect], got: &[REntry], comparisons: &mut u64) -> Vec<Mis> {
+    let mut out = vec![];
+    if expects.len() != got.len() {
+        out.push(Mis { idx: 0, kind: "entry-count".into(), info: json!({"expected": expects.len(), "got": got.len()}) });
+        return out;
+    }
+    for (i, (e, g)) in expects.iter().zip(got).enumerate() {
+        *comparisons += 1;
+        if e.path != g.path {
+            out.push(Mis { idx: i, kind: "entry-path".into(), info: json!({"expected": e.path, "got": g.path}) });
+            continue;
+        }
+        match (&e.tex, &g.thtx) {
+            (None, None) => {},
+            (None, Some(t)) => out.push(Mis { idx: i, kind: "unexpected-thtx".into(), info: json!({"label": e.label, "got": [t.fmt, t.w, t.h]}) }),
+            (Some(_), None) => out.push(Mis { idx: i, kind: "missing-thtx".into(), info: json!({"label": e.label}) }),
+            (Some((fmt, w, h, data)), Some(t)) => {
+                if (*fmt, *w, *h) != (t.fmt, t.w, t.h) {
+                    out.push(Mis { idx: i, kind: "thtx-header".into(), info: json!({"label": e.label, "expected": [fmt, w, h], "got": [t.fmt, t.w, t.h]}) });
+                } else if data.len() != t.data.len() {
+                    out.push(Mis { idx: i, kind: "thtx-size".into(), info: json!({"label": e.label, "expected": data.len(), "got": t.data.len()}) });
+                } else if *data != t.data {
+                    let b = gen_bpp(*fmt);
+                    let n = data.len() / b;
+                    let mut bad = vec![];
+                    let mut count = 0u64;
+                    for p in 0..n {
+                        if data[p * b..(p + 1) * b] != t.data[p * b..(p + 1) * b] {
+                            count += 1;
+                            if bad.len() < 8 { bad.push(json!({"index": p, "x": p % (*w as usize), "y": p / (*w as usize), "expected": px_value(*fmt, data, p), "got": px_value(*fmt, &t.data, p)})); }
+                        }
+                    }
+                    let first = bad[0]["expected"].as_str().unwrap_or("").to_string();
+                    out.push(Mis { idx: i, kind: "pixel".into(), info: json!({"label": e.label, "first_value": first, "mismatching_pixels": count, "of": n, "first": bad}) });
+                }
+            },
+        }
+    }
+    out
+}
+
+fn corrupt_expect(expects: &mut [Expect], pixel_index: usize) {
+    for e in expects.iter_mut() {
+        if let Some((fmt, _, _, data)) = &mut e.tex {
+            let b = gen_bpp(*fmt);
+            let n = data.len() / b;
+            if n == 0 { continue; }
+            let p = pixel_index.min(n - 1);
+            data[p * b] ^= 0x01;
+            return;
+        }
+    }
+}
+
+// ---------------------------------------------------------------------------------------------
+// running one case
+
+fn entry_src(path: &str, extra: &str) -> String {
+    format!("entry {{\n    path: \"{path}\",\n{extra}    sprites: {{}},\n}}\n\n")
+}
+
+fn fail_detail(case: &Case, stage: &str, stderr: &str, info: Value) -> Value {
+    json!({"case": case.to_json(), "stage": stage, "stderr": stderr, "info": info})
+}
+
+fn run_case(case: &Case) -> CaseOut {
+    let t0 = Instant::now();
+    let mut out = CaseOut::default();
+    let mut work = Work::new();
+    match case {
+        Case::Pixel { fmt, set, perm, corrupt } => run_pixel(case, *fmt, set, *perm, *corrupt, &mut work, &mut out),
+        Case::Dims { game: g, fmt, items, sub, corrupt } => run_dims(case, game(g), *fmt, items, sub, *corrupt, &mut work, &mut out),
+        Case::Verb { .. } | Case::VerbMulti { .. } => run_verb(case, &mut work, &mut out),
+        Case::Prec { fmt, sources, n_pragma, corrupt } => run_prec(case, *fmt, sources, *n_pragma, *corrupt, &mut work, &mut out),
+        Case::Dup { fmt, dest, src, dir_mode, corrupt } => run_dup(case, *fmt, dest, src, dir_mode, *corrupt, &mut work, &mut out),
+    }
+    out.calls = work.calls;
+    out.wall_ms = t0.elapsed().as_millis() as u64;
+    out
+}
+
+/// orig.anm -> decompile -> extract -> compile -i dir -> parsed output
+fn roundtrip_via_dir(work: &mut Work, g: GameV, entries: &[AEntry]) -> Result<Vec<REntry>, StageErr> {
+    let orig = write_anm(entries, g);
+    work.write("orig.anm", &orig);
+    let (po, ps, pe, pout) = (work.p("orig.anm"), work.p("a.spec"), work.p("ex"), work.p("out.anm"));
+    let script = stage(work, "decompile", &["truanm", "decompile", "-g", g.name, &po])?;
+    work.write("a.spec", &script);
+    stage(work, "extract", &["truanm", "extract", "-g", g.name, &po, "-o", &pe])?;
+    stage(work, "compile", &["truanm", "compile", "-g", g.name, &ps, "-o", &pout, "-i", &pe])?;
+    let bytes = std::fs::read(&pout).map_err(|e| StageErr { kind: "output-missing".into(), stderr: e.to_string() })?;
+    read_anm(&bytes, g.old).map_err(|e| StageErr { kind: "output-unreadable".into(), stderr: e })
+}
+
+fn run_pixel(case: &Case, fmt: u16, set: &str, perm: u32, corrupt: bool, work: &mut Work, out: &mut CaseOut) {
+    let (w, h, data) = pixel_set(fmt, set, perm);
+    let g = game("th12");
+    let e = AEntry::new("px/all.png", fmt, w, h, 0, 0, data.clone());
+    out.configs = 1;
+    if perm == 0 && bpp(fmt) == Some(2) {
+        out.nontrivial_pixels = (0..65536u32).filter(|&v| nontrivial16(fmt, v as u16)).count() as u64;
+    }
+    let mut expects = vec![Expect { path: e.path.clone(), tex: Some((fmt, w, h, data)), label: format!("{set}/perm{perm}") }];
+    if corrupt { corrupt_expect(&mut expects, 0x1234); }
+    let name = fmt_name(fmt);
+    match roundtrip_via_dir(work, g, &[e]) {
+        Err(se) => out.fails.push((format!("C17:pixel:{name}:{}", se.kind), fail_detail(case, &se.kind, &se.stderr, json!(null)))),
+        Ok(got) => {
+            let mis = compare(&expects, &got, &mut out.comparisons);
+            if mis.is_empty() { out.outcomes.push((format!("pixel:{name}:{set}:roundtrip-identical"), 1)); }
+            for m in mis {
+                let sig = if m.kind == "pixel" { format!("C17:pixel:{name}:{}", m.info["first_value"].as_str().unwrap_or("?")) }
+                    else { format!("C17:pixel:{name}:{}", m.kind) };
+                out.fails.push((sig, fail_detail(case, "compare", "", m.info)));
+            }
+        },
+    }
+}
+
+fn dims_entry(fmt: u16, it: &[u16; 4], old: bool) -> AEntry {
+    let [w, h, ox, oy] = *it;
+    let (ox, oy) = if old { (0, 0) } else { (ox, oy) };
+    let seed = (w as u32) * 131 + (h as u32) * 7 + (ox as u32) * 17 + oy as u32;
+    AEntry::new(&format!("d/{w}x{h}+{ox}+{oy}.png"), fmt, w, h, ox, oy, pattern(fmt, w, h, seed))
+}
+
+fn run_dims(case: &Case, g: GameV, fmt: u16, items: &[[u16; 4]], sub: &str, corrupt: bool, work: &mut Work, out: &mut CaseOut) {
+    let entries: Vec<AEntry> = items.iter().map(|it| dims_entry(fmt, it, g.old)).collect();
+    out.configs = items.len() as u64;
+    let name = fmt_name(fmt);
+    for e in &entries {
+        if e.ox != 0 || e.oy != 0 { out.nontrivial_keys.push(format!("dims:{}:{}:{}x{}+{}+{}", g.name, fmt, e.w, e.h, e.ox, e.oy)); }
+    }
+    let mut expects: Vec<Expect> = entries.iter().map(|e| Expect { path: e.path.clone(), tex: Some((fmt, e.w, e.h, e.data.clone())), label: e.path.clone() }).collect();
+    if corrupt { corrupt_expect(&mut expects, 1); }
+    let offclass = |i: usize| if entries[i].ox != 0 || entries[i].oy != 0 { "off>0" } else { "off=0" };
+    match roundtrip_via_dir(work, g, &entries) {
+        Err(se) => out.fails.push((format!("C17:dims:{name}:{}", se.kind), fail_detail(case, &se.kind, &se.stderr, json!({"item": null})))),
+        Ok(got) => {
+            let mis = compare(&expects, &got, &mut out.comparisons);
+            let nbad = mis.len() as u64;
+            let okn = (items.len() as u64).saturating_sub(nbad);
+            if okn > 0 { out.outcomes.push((format!("dims:{sub}:{name}:roundtrip-identical"), okn)); }
+            for m in mis {
+                let sig = format!("C17:dims:{name}:{}:{}", offclass(m.idx.min(entries.len() - 1)), m.kind);
+                let item = items.get(m.idx).map(|i| json!([i[0], i[1], i[2], i[3]])).unwrap_or(json!(null));
+                out.fails.push((sig, fail_detail(case, "compare", "", json!({"item": item, "item_index": m.idx, "mismatch": m.info}))));
+            }
+        },
+    }
+}
+
+fn verb_script_minimal(entries: &[&AEntry]) -> String {
+    entries.iter().map(|e| entry_src(&e.path, "")).collect()
+}
+
+fn run_verb(case: &Case, work: &mut Work, out: &mut CaseOut) {
+    let (g, entries, order_rev, script_kind, corrupt, label): (GameV, Vec<AEntry>, bool, String, bool, String) = match case {
+        Case::Verb { game: gn, fmt, w, h, ox, oy, rt, script, corrupt } => {
+            let g = game(gn);
+            let (ox, oy) = if g.old { (0, 0) } else { (*ox, *oy) };
+            let mut e = AEntry::new(&format!("v/{w}x{h}.png"), *fmt, *w, *h, ox, oy, pattern(*fmt, *w, *h, 5 + *fmt as u32));
+            if rt == "big" { e.rt_w = 512; e.rt_h = 1024; }
+            (g, vec![e], false, script.clone(), *corrupt, fmt_name(*fmt))
+        },
+        Case::VerbMulti { order, script, corrupt } => {
+            let es = KNOWN_FORMATS.iter().enumerate().map(|(i, &f)| {
+                let (w, h) = (5 + 2 * i as u16, 3 + i as u16);
+                AEntry::new(&format!("v/m{i}.png"), f, w, h, i as u16, (3 - i) as u16, pattern(f, w, h, 40 + i as u32))
+            }).collect();
+            (game("th12"), es, order == "reversed", script.clone(), *corrupt, "multi".to_string())
+        },
+        _ => unreachable!(),
+    };
+    out.configs = 1;
+    if entries.iter().any(|e| e.ox != 0 || e.oy != 0) { out.nontrivial_keys.push(format!("verb:{}", case.to_json())); }
+    let orig = write_anm(&entries, g);
+    work.write("orig.anm", &orig);
+    let (po, ps, pout) = (work.p("orig.anm"), work.p("a.spec"), work.p("out.anm"));
+    let dest: Vec<&AEntry> = if order_rev { entries.iter().rev().collect() } else { entries.iter().collect() };
+    let r: Result<Vec<u8>, StageErr> = (|| {
+        if script_kind == "decompiled" && !order_rev {
+            let s = stage(work, "decompile", &["truanm", "decompile", "-g", g.name, &po])?;
+            work.write("a.spec", &s);
+        } else if script_kind == "decompiled" {
+            // explicit metadata written by the harness in the decompiler's vocabulary, reversed entry order
+            let s: String = dest.iter().map(|e| entry_src(&e.path, &format!(
+                "    img_width: {},\n    img_height: {},\n    img_format: {},\n    offset_x: {},\n    offset_y: {},\n",
+                e.w, e.h, fmt_const(e.fmt), e.ox, e.oy))).collect();
+            work.write("a.spec", s.as_bytes());
+        } else {
+            work.write("a.spec", verb_script_minimal(&dest).as_bytes());
+        }
+        stage(work, "compile", &["truanm", "compile", "-g", g.name, &ps, "-o", &pout, "-i", &po])?;
+        std::fs::read(&pout).map_err(|e| StageErr { kind: "output-missing".into(), stderr: e.to_string() })
+    })();
+    let mut expects: Vec<Expect> = dest.iter().map(|e| Expect { path: e.path.clone(), tex: Some((e.fmt, e.w, e.h, e.data.clone())), label: e.path.clone() }).collect();
+    if corrupt { corrupt_expect(&mut expects, 2); }
+    match r.and_then(|b| read_anm(&b, g.old).map(|e| (b, e)).map_err(|e| StageErr { kind: "output-unreadable".into(), stderr: e })) {
+        Err(se) => out.fails.push((format!("C17:verbatim:{label}:{}", se.kind), fail_detail(case, &se.kind, &se.stderr, json!(null)))),
+        Ok((bytes, got)) => {
+            let mis = compare(&expects, &got, &mut out.comparisons);
+            if mis.is_empty() {
+                let class = if entries.iter().all(|e| bpp(e.fmt).is_some()) { "thtx-verbatim" } else { "unknown-format-passthrough" };
+                out.outcomes.push((format!("verbatim:{label}:{script_kind}:{class}"), 1));
+                if !order_rev {
+                    out.outcomes.push((if bytes == orig { "verbatim:whole-file-identical".to_string() } else { "verbatim:whole-file-differs(thtx-identical)".to_string() }, 1));
+                }
+            }
+            for m in mis {
+                out.fails.push((format!("C17:verbatim:{label}:{}", m.kind), fail_detail(case, "compare", "", m.info)));
+            }
+        },
+    }
+}
+
+const PREC_PATHS: [&str; 2] = ["pr/a.png", "pr/b.png"];
+
+/// the texture that source number `k` supplies for path number `j`
+fn prec_fill(fmt: u16, k: usize, j: usize) -> (u16, u16, Vec<u8>) {
+    let (w, h) = (3 + k as u16, 2 + j as u16);
+    (w, h, pattern(fmt, w, h, 100 + (k * 2 + j) as u32))
+}
+
+fn run_prec(case: &Case, fmt: u16, sources: &[(char, u8)], n_pragma: usize, corrupt: bool, work: &mut Work, out: &mut CaseOut) {
+    let g = game("th12");
+    out.configs = 1;
+    let name = fmt_name(fmt);
+    let kinds: String = sources.iter().map(|s| s.0).collect();
+    // materialise the sources
+    let mut src_paths = vec![];
+    for (k, &(kind, mask)) in sources.iter().enumerate() {
+        let supplied: Vec<usize> = (0..2).filter(|j| mask & (1 << j) != 0).collect();
+        if kind == 'A' {
+            let es: Vec<AEntry> = supplied.iter().map(|&j| { let (w, h, d) = prec_fill(fmt, k, j); AEntry::new(PREC_PATHS[j], fmt, w, h, 0, 0, d) }).collect();
+            work.write(&format!("s{k}.anm"), &write_anm(&es, g));
+            src_paths.push(work.p(&format!("s{k}.anm")));
+        } else {
+            for &j in &supplied {
+                let (w, h, d) = prec_fill(fmt, k, j);
+                work.write(&format!("s{k}/{}", PREC_PATHS[j]), &write_png_rgba(w as u32, h as u32, &ref_to_rgba(fmt, &d)));
+            }
+            std::fs::create_dir_all(work.dir.join(format!("s{k}"))).expect("mkdir");
+            src_paths.push(work.p(&format!("s{k}")));
+        }
+    }
+    // the script + expectation
+    let mut script = String::new();
+    for p in &src_paths[..n_pragma] { script += &format!("#pragma image_source \"{p}\"\n"); }
+    script += "\n";
+    let mut expects = vec![];
+    let mut multi = false;
+    for j in 0..2 {
+        let suppliers: Vec<usize> = (0..sources.len()).filter(|&k| sources[k].1 & (1 << j) != 0).collect();
+        if suppliers.len() >= 2 { multi = true; }
+        match suppliers.last() {
+            Some(&k) => {
+                script += &entry_src(PREC_PATHS[j], &format!("    img_format: {},\n", fmt_const(fmt)));
+                let (w, h, d) = prec_fill(fmt, k, j);
+                expects.push(Expect { path: PREC_PATHS[j].into(), tex: Some((fmt, w, h, d)), label: format!("path{j}:winner=source{k}({})", sources[k].0) });
+            },
+            None => {
+                script += &entry_src(PREC_PATHS[j], "    has_data: false,\n    rt_width: 16,\n    rt_height: 16,\n");
+                expects.push(Expect { path: PREC_PATHS[j].into(), tex: None, label: format!("path{j}:unsupplied") });
+            },
+        }
+    }
+    if multi { out.nontrivial_keys.push(format!("prec:{}", case.to_json())); }
+    if corrupt { corrupt_expect(&mut expects, 3); }
+    work.write("a.spec", script.as_bytes());
+    let (ps, pout) = (work.p("a.spec"), work.p("out.anm"));
+    let mut args: Vec<&str> = vec!["truanm", "compile", "-g", g.name, &ps, "-o", &pout];
+    for p in &src_paths[n_pragma..] { args.push("-i"); args.push(p); }
+    let r = stage(work, "compile", &args)
+        .and_then(|_| std::fs::read(&pout).map_err(|e| StageErr { kind: "output-missing".into(), stderr: e.to_string() }))
+        .and_then(|b| read_anm(&b, g.old).map_err(|e| StageErr { kind: "output-unreadable".into(), stderr: e }));
+    match r {
+        Err(se) => out.fails.push((format!("C17:precedence:{name}:{kinds}:{}", se.kind), fail_detail(case, &se.kind, &se.stderr, json!({"script": script})))),
+        Ok(got) => {
+            let mis = compare(&expects, &got, &mut out.comparisons);
+            if mis.is_empty() { out.outcomes.push((format!("precedence:{name}:{kinds}:last-supplier-wins"), 1)); }
+            for m in mis {
+                // which source's fill did we get instead?
+                let mut got_from = "none".to_string();
+                if let Some(t) = got.get(m.idx).and_then(|e| e.thtx.as_ref()) {
+                    for k in 0..sources.len() {
+                        let (w, h, d) = prec_fill(fmt, k, m.idx);
+                        if (t.w, t.h) == (w, h) && t.data == d { got_from = format!("source{k}({})", sources[k].0); }
+                    }
+                    if got_from == "none" { got_from = "unrecognised-bytes".into(); }
+                }
+                let kind = if got_from.starts_with("source") && !expects[m.idx].label.ends_with(&got_from) { "wrong-winner".to_string() } else { m.kind.clone() };
+                out.fails.push((format!("C17:precedence:{name}:{kinds}:{kind}"),
+                    fail_detail(case, "compare", "", json!({"mismatch": m.info, "expected": expects[m.idx].label, "got_texture_of": got_from, "script": script}))));
+            }
+        },
+    }
+}
+
+const DUP_P: &str = "dup/p.png";
+const DUP_Q: &str = "dup/q.png";
+
+/// fill id: 0..=2 the i-th P entry of the source ANM, 8 = the directory's P file, 9 = the source ANM's Q
+fn dup_fill(fmt: u16, id: usize) -> (u16, u16, Vec<u8>) {
+    let (w, h) = (3 + id as u16, 2);
+    (w, h, pattern(fmt, w, h, 200 + id as u32))
+}
+
+fn run_dup(case: &Case, fmt: u16, dest: &str, src: &str, dir_mode: &str, corrupt: bool, work: &mut Work, out: &mut CaseOut) {
+    let g = game("th12");
+    out.configs = 1;
+    let name = fmt_name(fmt);
+    let n = dest.matches('P').count();
+    let m = src.matches('P').count();
+    let src_has_q = src.contains('Q');
+    // source ANM
+    let mut es = vec![];
+    let mut pi = 0;
+    for c in src.chars() {
+        if c == 'P' { let (w, h, d) = dup_fill(fmt, pi); es.push(AEntry::new(DUP_P, fmt, w, h, 0, 0, d)); pi += 1; }
+        else { let (w, h, d) = dup_fill(fmt, 9); es.push(AEntry::new(DUP_Q, fmt, w, h, 0, 0, d)); }
+    }
+    work.write("src.anm", &write_anm(&es, g));
+    if dir_mode != "none" {
+        let (w, h, d) = dup_fill(fmt, 8);
+        work.write(&format!("sd/{DUP_P}"), &write_png_rgba(w as u32, h as u32, &ref_to_rgba(fmt, &d)));
+    }
+    // script + expectation
+    let mut script = String::new();
+    let mut expects = vec![];
+    let mut pi = 0;
+    let nodata = "    has_data: false,\n    rt_width: 16,\n    rt_height: 16,\n";
+    let withfmt = format!("    img_format: {},\n", fmt_const(fmt));
+    for c in dest.chars() {
+        if c == 'P' {
+            // which fill should the pi-th P entry end up with?
+            let want: Option<usize> = match dir_mode {
+                "none" => if pi < m { Some(pi) } else { None },
+                "after" => Some(8),
+                "before" => if pi < m { Some(pi) } else { Some(8) },
+                _ => panic!("dir_mode"),
+            };
+            match want {
+                Some(id) => {
+                    script += &entry_src(DUP_P, &withfmt);
+                    let (w, h, d) = dup_fill(fmt, id);
+                    expects.push(Expect { path: DUP_P.into(), tex: Some((fmt, w, h, d)), label: format!("P#{pi}:fill{id}") });
+                },
+                None => {
+                    script += &entry_src(DUP_P, nodata);
+                    expects.push(Expect { path: DUP_P.into(), tex: None, label: format!("P#{pi}:no-data") });
+                },
+            }
+            pi += 1;
+        } else if src_has_q {
+            script += &entry_src(DUP_Q, &withfmt);
+            let (w, h, d) = dup_fill(fmt, 9);
+            expects.push(Expect { path: DUP_Q.into(), tex: Some((fmt, w, h, d)), label: "Q:fill9".into() });
+        } else {
+            script += &entry_src(DUP_Q, nodata);
+            expects.push(Expect { path: DUP_Q.into(), tex: None, label: "Q:no-data".into() });
+        }
+    }
+    if dir_mode != "none" { out.nontrivial_keys.push(format!("dup:{}", case.to_json())); }
+    if corrupt { corrupt_expect(&mut expects, 1); }
+    work.write("a.spec", script.as_bytes());
+    let (ps, pout, psrc, pdir) = (work.p("a.spec"), work.p("out.anm"), work.p("src.anm"), work.p("sd"));
+    let mut args: Vec<&str> = vec!["truanm", "compile", "-g", g.name, &ps, "-o", &pout];
+    match dir_mode {
+        "none" => args.extend(["-i", &psrc]),
+        "after" => args.extend(["-i", &psrc, "-i", &pdir]),
+        _ => args.extend(["-i", &pdir, "-i", &psrc]),
+    }
+    let r = stage(work, "compile", &args)
+        .and_then(|_| std::fs::read(&pout).map_err(|e| StageErr { kind: "output-missing".into(), stderr: e.to_string() }))
+        .and_then(|b| read_anm(&b, g.old).map_err(|e| StageErr { kind: "output-unreadable".into(), stderr: e }));
+    let tag = format!("n{n}m{m}:dir-{dir_mode}");
+    match r {
+        Err(se) => out.fails.push((format!("C17:duplicates:{name}:{tag}:{}", se.kind), fail_detail(case, &se.kind, &se.stderr, json!({"script": script})))),
+        Ok(got) => {
+            let mis = compare(&expects, &got, &mut out.comparisons);
+            if mis.is_empty() { out.outcomes.push((format!("duplicates:{name}:{tag}:matched-in-order"), 1)); }
+            for m_ in mis {
+                let mut got_from = "none".to_string();
+                if let Some(t) = got.get(m_.idx).and_then(|e| e.thtx.as_ref()) {
+                    got_from = "unrecognised-bytes".into();
+                    for id in [0usize, 1, 2, 8, 9] {
+                        let (w, h, d) = dup_fill(fmt, id);
+                        if (t.w, t.h) == (w, h) && t.data == d { got_from = format!("fill{id}"); }
+                    }
+                }
+                let kind = if got_from.starts_with("fill") && !expects[m_.idx].label.ends_with(&got_from) { "wrong-match".to_string() } else { m_.kind.clone() };
+                out.fails.push((format!("C17:duplicates:{name}:{tag}:{kind}"),
+                    fail_detail(case, "compare", "", json!({"mismatch": m_.info, "expected": expects[m_.idx].label, "got_texture_of": got_from, "script": script}))));
+            }
+        },
+    }
+}
+
+// =============================================================================================
+// enumeration
+
+fn layouts(counts: &[usize]) -> Vec<String> {
+    // n P's, optionally one Q at any position
+    let mut v = vec![];
+    for &n in counts {
+        v.push("P".repeat(n));
+        for pos in 0..=n { let mut s = "P".repeat(n); s.insert(pos, 'Q'); v.push(s); }
+    }
+    v
+}
+
+fn gen_cases(thorough: bool) -> Vec<Case> {
+    let mut cases = vec![];
+    let th12 = "th12".to_string();
+
+    // ---- (a) pixel-exhaustive
+    let a0 = cases.len();
+    for perm in 0..2 {
+        cases.push(Case::Pixel { fmt: F_RGB565, set: "all16".into(), perm, corrupt: false });
+        cases.push(Case::Pixel { fmt: F_ARGB4444, set: "all16".into(), perm, corrupt: false });
+    }
+    cases.push(Case::Pixel { fmt: F_ARGB8888, set: "sweep32".into(), perm: 0, corrupt: false });
+    cases.push(Case::Pixel { fmt: F_ARGB8888, set: "bound32".into(), perm: 0, corrupt: false });
+    for perm in 0..2 { cases.push(Case::Pixel { fmt: F_GRAY8, set: "all8".into(), perm, corrupt: false }); }
+    let _ = a0;
+
+    // ---- (e) verbatim
+    let sizes_q: &[(u16, u16)] = &[(1, 1), (3, 5), (7, 20), (27, 25), (64, 64), (105, 100), (256, 1), (1, 256), (257, 3)];
+    let sizes_t: &[(u16, u16)] = &[(2, 2), (16, 16), (63, 65), (100, 105), (511, 2), (2, 511), (255, 255)];
+    let offs: &[(u16, u16)] = &[(0, 0), (105, 9), (1, 8)];
+    let mut fmts_e: Vec<u16> = KNOWN_FORMATS.to_vec();
+    fmts_e.push(8);
+    if thorough { fmts_e.extend([0u16, 2, 4, 6, 0xFFFF]); }
+    let mut sizes: Vec<(u16, u16)> = sizes_q.to_vec();
+    if thorough { sizes.extend_from_slice(sizes_t); }
+    for &fmt in &fmts_e { for &(w, h) in &sizes { for &(ox, oy) in offs { for script in ["decompiled", "minimal"] {
+        // quick: every size with the large offset, and the other offsets with two sizes; thorough: full product
+        if !thorough && (ox, oy) != (105, 9) && !matches!((w, h), (3, 5) | (64, 64)) { continue; }
+        cases.push(Case::Verb { game: th12.clone(), fmt, w, h, ox, oy, rt: "default".into(), script: script.into(), corrupt: false });
+    } } } }
+    for &fmt in &KNOWN_FORMATS { for script in ["decompiled", "minimal"] {
+        cases.push(Case::Verb { game: th12.clone(), fmt, w: 7, h: 20, ox: 3, oy: 0, rt: "big".into(), script: script.into(), corrupt: false });
+    } }
+    for gv in GAMES.iter().filter(|g| g.name != "th12") { for &fmt in &KNOWN_FORMATS { for script in ["decompiled", "minimal"] {
+        cases.push(Case::Verb { game: gv.name.into(), fmt, w: 5, h: 3, ox: 2, oy: 1, rt: "default".into(), script: script.into(), corrupt: false });
+    } } }
+    for order in ["same", "reversed"] { for script in ["decompiled", "minimal"] {
+        cases.push(Case::VerbMulti { order: order.into(), script: script.into(), corrupt: false });
+    } }
+
+    // ---- (c) precedence: every sequence of 1..=3 sources over {A,D} x {mask 1,2,3}
+    let opts: Vec<(char, u8)> = ['A', 'D'].iter().flat_map(|&k| (1u8..=3).map(move |m| (k, m))).collect();
+    let mut seqs: Vec<Vec<(char, u8)>> = vec![];
+    for a in &opts { seqs.push(vec![*a]); }
+    for a in &opts { for b in &opts { seqs.push(vec![*a, *b]); } }
+    for a in &opts { for b in &opts { for c in &opts { seqs.push(vec![*a, *b, *c]); } } }
+    for seq in &seqs {
+        let n = seq.len();
+        let fmts: Vec<u16> = if thorough { KNOWN_FORMATS.to_vec() } else if n <= 2 { vec![F_ARGB8888, F_RGB565] } else { vec![F_ARGB8888] };
+        for &fmt in &fmts {
+            let splits: Vec<usize> = if thorough { (0..=n).collect() } else if n <= 2 && fmt == F_ARGB8888 { vec![0, n] } else { vec![0] };
+            for n_pragma in splits { cases.push(Case::Prec { fmt, sources: seq.clone(), n_pragma, corrupt: false }); }
+        }
+    }
+
+    // ---- (d) duplicates
+    let dests = layouts(&[2, 3]);
+    let srcs = layouts(&[1, 2, 3]);
+    for dir_mode in ["none", "after", "before"] {
+        let fmts: Vec<u16> = if thorough { KNOWN_FORMATS.to_vec() } else if dir_mode == "none" { vec![F_ARGB8888, F_RGB565] } else { vec![F_ARGB8888] };
+        for &fmt in &fmts { for d in &dests { for s in &srcs {
+            // quick: the second format only on the layouts without an interleaved other-path entry
+            if !thorough && fmt != F_ARGB8888 && (d.contains('Q') || s.contains('Q')) { continue; }
+            // quick: with a directory, only source layouts without the other-path entry
+            if !thorough && dir_mode != "none" && s.contains('Q') { continue; }
+            cases.push(Case::Dup { fmt, dest: d.clone(), src: s.clone(), dir_mode: dir_mode.into(), corrupt: false });
+        } } }
+    }
+
+    // ---- (b) dims x offsets: single-entry files on the quick grid
+    let grid: [u16; 6] = [1, 2, 3, 7, 16, 64];
+    let qoff: [u16; 3] = [0, 1, 8];
+    for &fmt in &KNOWN_FORMATS { for &w in &grid { for &h in &grid { for &ox in &qoff { for &oy in &qoff {
+        // quick: single-entry files for every size at offset (1,8) and for every offset at size 3x7; the
+        // whole grid x offsets product is additionally covered by the multi-entry file below.
+        if !thorough && (ox, oy) != (1, 8) && (w, h) != (3, 7) { continue; }
+        cases.push(Case::Dims { game: th12.clone(), fmt, items: vec![[w, h, ox, oy]], sub: "single".into(), corrupt: false });
+    } } } } }
+    // container versions
+    for gv in GAMES.iter().filter(|g| g.name != "th12") { for &fmt in &KNOWN_FORMATS {
+        cases.push(Case::Dims { game: gv.name.into(), fmt, items: vec![[5, 3, 2, 1], [64, 1, 0, 8]], sub: "versions".into(), corrupt: false });
+    } }
+    // one multi-entry batch per format in quick as well (all grid sizes x offsets in one file)
+    if !thorough {
+        for &fmt in &KNOWN_FORMATS {
+            let mut items = vec![];
+            for &w in &grid { for &h in &grid { for &ox in &qoff { for &oy in &qoff { items.push([w, h, ox, oy]); } } } }
+            cases.push(Case::Dims { game: th12.clone(), fmt, items, sub: "batch".into(), corrupt: false });
+        }
+    }
+    // thorough: the full product 1..=64 x 1..=64 x 0..=8 x 0..=8 x 4 formats in multi-entry files;
+    // offsets of the quick grid first, so that a wall cap leaves a meaningful completed prefix.
+    if thorough {
+        let mut offsets: Vec<(u16, u16)> = vec![];
+        for &ox in &qoff { for &oy in &qoff { offsets.push((ox, oy)); } }
+        for ox in 0..=8u16 { for oy in 0..=8u16 { if !offsets.contains(&(ox, oy)) { offsets.push((ox, oy)); } } }
+        // (1024 entries per file: process creation dominates the cost, so few large files)
+        for &(ox, oy) in &offsets { for &fmt in &KNOWN_FORMATS { for wg in 0..4u16 {
+            let mut items = vec![];
+            for w in (wg * 16 + 1)..=(wg * 16 + 16) { for h in 1..=64u16 { items.push([w, h, ox, oy]); } }
+            cases.push(Case::Dims { game: th12.clone(), fmt, items, sub: "batch".into(), corrupt: false });
+        } } }
+    }
+    cases
+}
+
+// =============================================================================================
+// run / replay
+
+/// run a case; for a failing multi-entry batch, isolate each failing item as a single-entry case
+fn run_with_isolation(case: &Case) -> CaseOut {
+    let mut out = run_case(case);
+    if let Case::Dims { game, fmt, items, sub, corrupt } = case {
+        if items.len() > 1 && !out.fails.is_empty() {
+            let mut isolated = vec![];
+            let mut seen = BTreeSet::new();
+            let whole = out.fails.iter().any(|(_, d)| d["info"]["item"].is_null());
+            let suspects: Vec<[u16; 4]> = if whole { items.clone() } else {
+                out.fails.iter().filter_map(|(_, d)| { let a = d["info"]["item"].as_array()?; Some([a[0].as_u64()? as u16, a[1].as_u64()? as u16, a[2].as_u64()? as u16, a[3].as_u64()? as u16]) }).collect()
+            };
+            for it in suspects.into_iter().take(64) {
+                if !seen.insert(it) { continue; }
+                let single = Case::Dims { game: game.clone(), fmt: *fmt, items: vec![it], sub: format!("{sub}-isolated"), corrupt: *corrupt };
+                let o = run_case(&single);
+                out.calls += o.calls;
+                out.comparisons += o.comparisons;
+                isolated.extend(o.fails);
+            }
+            if !isolated.is_empty() {
+                // minimal witnesses replace the batch-level failures
+                out.fails = isolated;
+            } else {
+                // only reproducible in the multi-entry file: keep batch failures, mark them
+                for (sig, _) in out.fails.iter_mut() { sig.push_str(":only-in-multi-entry-file"); }
+            }
+        }
+    }
+    out
+}
+
+pub fn run(tier: &str) -> Report {
+    let mut rep = Report::new("C17", tier, "model_checking");
+    let thorough = rep.is_thorough();
+    rep.rule = "a case is non-trivial if: (a) a 16-bit pixel value whose 8-bit expansion by bit replication differs from the naive zero-filling shift in some channel (counted once per (format,value)); or (b,e) offset_x/offset_y != 0; or (c,d) >= 2 sources supply the same path".into();
+    let mut cases = gen_cases(thorough);
+    let selftest = std::env::var("VERIF_C17_SELFTEST_CORRUPT").map(|v| v != "0" && !v.is_empty()).unwrap_or(false);
+    if selftest {
+        // deliberately wrong expectation in the first case of each family: the run MUST report violations
+        let mut seen = BTreeSet::new();
+        for c in cases.iter_mut() {
+            if seen.insert(c.family()) {
+                match c {
+                    Case::Pixel { corrupt, .. } | Case::Dims { corrupt, .. } | Case::Verb { corrupt, .. } | Case::VerbMulti { corrupt, .. }
+                    | Case::Prec { corrupt, .. } | Case::Dup { corrupt, .. } => *corrupt = true,
+                }
+            }
+        }
+        rep.assumptions.push("VERIF_C17_SELFTEST_CORRUPT is set: one expected pixel of the first case of every family was flipped on purpose; violations are expected".into());
+    }
+    let budget = if thorough { 680 } else { 40 };
+    let deadline = std::cmp::min(rep.deadline().checked_sub(Duration::from_secs(30)).unwrap_or(rep.deadline()), rep.start + Duration::from_secs(budget));
+
+    let results = par_map(&cases, Some(deadline), |_, c| run_with_isolation(c));
+
+    let mut fam: BTreeMap<&'static str, (u64, u64, u64, u64, u64, u64)> = BTreeMap::new(); // cases, configs, calls, comparisons, not-run, cpu ms
+    let mut nontrivial: BTreeSet<String> = BTreeSet::new();
+    let mut nontrivial_pixels = 0u64;
+    let mut not_run = 0u64;
+    let mut not_run_desc: BTreeMap<String, u64> = BTreeMap::new();
+    let mut sampled: BTreeSet<&'static str> = BTreeSet::new();
+    for (c, r) in cases.iter().zip(results) {
+        let f = fam.entry(c.family()).or_default();
+        match r {
+            None => {
+                not_run += 1; f.4 += 1;
+                let d = match c { Case::Dims { sub, .. } => format!("{}:{}", c.family(), sub), _ => c.family().to_string() };
+                *not_run_desc.entry(d).or_insert(0) += 1;
+            },
+            Some(o) => {
+                f.0 += 1; f.1 += o.configs; f.2 += o.calls; f.3 += o.comparisons; f.5 += o.wall_ms;
+                rep.evaluations += o.calls;
+                rep.transitions += o.calls;
+                rep.states += o.configs;
+                rep.traces_validated += o.comparisons;
+                for (k, n) in &o.outcomes { rep.outcome_n(k, *n); }
+                for d in &o.discards { rep.discard(d); }
+                for k in o.nontrivial_keys { nontrivial.insert(k); }
+                nontrivial_pixels += o.nontrivial_pixels;
+                if sampled.insert(c.family()) || (rep.samples.len() < 10 && matches!(c, Case::Prec { sources, .. } if sources.len() == 3)) {
+                    let mut j = c.to_json();
+                    if let Some(items) = j.get_mut("items").and_then(|i| i.as_array_mut()) { items.truncate(4); }
+                    rep.sample(json!({"case": j, "cli_calls": o.calls, "texture_comparisons": o.comparisons, "failures": o.fails.len()}));
+                }
+                for (sig, detail) in o.fails {
+                    if sig.contains("machinery:") { rep.machinery_errors.push(format!("{sig}: {}", detail["stderr"].as_str().unwrap_or(""))); }
+                    else { rep.fail(sig, detail); }
+                }
+            },
+        }
+    }
+    rep.nontrivial = nontrivial.len() as u64 + nontrivial_pixels;
+    let mut famj = serde_json::Map::new();
+    for (k, v) in &fam {
+        famj.insert(k.to_string(), json!({"cases_run": v.0, "configurations": v.1, "cli_invocations": v.2, "texture_comparisons": v.3, "cases_not_run": v.4, "cpu_seconds": (v.5 as f64) / 1000.0}));
+    }
+    rep.extra.insert("families".into(), Value::Object(famj));
+    rep.extra.insert("nontrivial_breakdown".into(), json!({"nontrivial_16bit_pixel_values": nontrivial_pixels, "nontrivial_cases(offset!=0 or >=2 suppliers)": nontrivial.len()}));
+    let a_done = fam.get("a:pixel").map(|v| v.4 == 0 && v.0 > 0).unwrap_or(false);
+    rep.extra.insert("family_a_pixel_exhaustive".into(), json!(a_done));
+    if not_run > 0 {
+        rep.cap_hit = Some(format!("wall cap: {not_run} of {} cases not run ({})", cases.len(),
+            not_run_desc.iter().map(|(k, v)| format!("{k}={v}")).collect::<Vec<_>>().join(", ")));
+    }
+    rep.exhaustive = not_run == 0;
+    rep.bound_completed = if thorough {
+        "(a) all 65536 values of RGB565 and ARGB4444 (2 arrangements each), all 256 of GRAY8, ARGB8888 channel sweeps (each channel 0..255, others in {00,5A,FF}^3) + {00,01,7F,80,FE,FF}^4; \
+         (b) sizes 1..=64 x 1..=64 x offsets 0..=8 x 0..=8 x 4 formats in multi-entry files, plus the grid {1,2,3,7,16,64}^2 x {0,1,8}^2 as single-entry files, plus 5 other container versions; \
+         (c) all 258 sequences of <=3 sources over {ANM,dir} x {non-empty subsets of 2 paths} x 4 formats x every pragma/-i split; \
+         (d) 9 script layouts (2-3 duplicates, optional interleaved other path) x 12 source layouts (1-3 duplicates) x {no dir, dir after, dir before} x 4 formats; \
+         (e) -i file.anm for 10 format numbers x 16 sizes x 3 offsets x {decompiled, minimal} scripts, 6 container versions, multi-entry same/reversed order".into()
+    } else {
+        "(a) as thorough (pixel families are exhaustive in both tiers); (b) grid {1,2,3,7,16,64}^2 x offsets {0,1,8}^2 x 4 formats as single-entry files and as one multi-entry file per format, 5 other container versions; \
+         (c) all 258 sequences of <=3 sources (ARGB8888; RGB565 and pragma delivery for <=2 sources); (d) 9 x 12 layouts x {no dir (2 formats), dir after, dir before}; \
+         (e) 6 format numbers x 9 sizes x 3 offsets x 2 scripts, 6 container versions, multi-entry same/reversed order".into()
+    };
+    rep.assumptions.push("directory-source PNGs authored by the harness (families c, d) use colours exactly representable in the target format (bit-replicated expansion), so any sane quantisation maps them back to the source value".into());
+    rep.assumptions.push("precedence/duplicate scripts pin img_format explicitly and use offset 0, so that only the texture choice (not metadata inheritance) is asserted".into());
+    rep.assumptions.push("entries without any supplier are written with has_data: false and must come out without a THTX section".into());
+    rep.explanation = "Each case hand-assembles ANM files with the harness' own writer, runs the real truanm CLI (decompile, extract, compile -i) in subprocesses on real files, and parses the output with the harness' own reader; THTX header and bytes are compared with the harness-side expectation. evaluations = transitions = CLI invocations; states = distinct (family, configuration); traces = texture comparisons.".into();
+    cleanup_scratch();
+    rep
+}
+
+pub fn replay(detail: &Value) -> i32 {
+    let Some(case) = Case::from_json(&detail["case"]) else { eprintln!("C17 replay: cannot parse case"); return 2; };
+    println!("C17 replay of {}", case.to_json());
+    let o = run_case(&case);
+    println!("cli invocations: {}, texture comparisons: {}", o.calls, o.comparisons);
+    for (k, n) in &o.outcomes { println!("outcome: {k} x{n}"); }
+    for (sig, d) in &o.fails {
+        println!("FAIL {sig}");
+        println!("{}", serde_json::to_string_pretty(&json!({"stage": d["stage"], "stderr": d["stderr"], "info": d["info"]})).unwrap_or_default());
+    }
+    cleanup_scratch();
+    if o.fails.is_empty() { println!("no mismatch: expected == produced THTX"); 0 } else { 1 }
+}
